@@ -112,8 +112,10 @@ def annotate(src):
     with warnings.catch_warnings(record=True) as caught:
         warnings.simplefilter("always")
         try:
-            root = patchedast.get_patched_ast(src, True)
+            root = pt.with_timeout(20 + len(src) / 5000.0, patchedast.get_patched_ast, src, True)
             exc = None
+        except pt.Hang as e:
+            root, exc = None, e
         except RecursionError as e:
             root, exc = None, e
         except Exception as e:  # noqa
@@ -125,20 +127,92 @@ def annotate(src):
 import re as _re
 
 
+import keyword as _keyword
+
+
 def atoms(text, kind):
-    """The tokens of a piece of lost / extra region text, without layout noise;
-    parentheses count once as '()', the tail of a numeric literal as 'literal-tail'."""
+    """The tokens of a piece of lost / extra region text as classes: operators and
+    keywords as themselves, NAME / NUMBER / STRING, parentheses once as '()'.
+    Kind-specific: the tail of a numeric literal is 'literal-tail', the lost
+    annotation of a parameter 'annotation'."""
     t = _re.sub(r"#[^\n]*", "", text)
     t = _re.sub(r"\\\n", "", t)
+    if kind == "Num" and _re.match(r"\s*\w+\s*$", t) is not None and "(" not in t:
+        return {"literal-tail"}
+    if kind == "arg" and t.lstrip().startswith(":"):
+        return {"annotation"}
     out = set()
+    try:
+        toks = list(tokenize.generate_tokens(io.StringIO("(" + t.replace("\n", " ") + ")").readline))[1:]
+        toks = [x for x in toks if x.type not in (tokenize.NL, tokenize.NEWLINE, tokenize.ENDMARKER,
+                                                  tokenize.INDENT, tokenize.DEDENT, tokenize.COMMENT)][:-1]
+        for x in toks:
+            if x.type == tokenize.NAME:
+                out.add(x.string if _keyword.iskeyword(x.string) else "NAME")
+            elif x.type == tokenize.NUMBER:
+                out.add("NUMBER")
+            elif x.type in (tokenize.STRING, getattr(tokenize, "FSTRING_START", -1),
+                            getattr(tokenize, "FSTRING_MIDDLE", -1), getattr(tokenize, "FSTRING_END", -1)):
+                out.add("STRING")
+            elif x.string in "()":
+                out.add("()")
+            else:
+                out.add(x.string[:10])
+        return out
+    except (tokenize.TokenError, SyntaxError, IndentationError):
+        pass
     for tok in _re.findall(r"\*\*|\w+|\S", t):
         if tok in "()":
             out.add("()")
-        elif _re.match(r"\w+$", tok) and kind == "Num":
-            out.add("literal-tail")
+        elif _re.match(r"\d", tok):
+            out.add("NUMBER")
+        elif _re.match(r"\w+$", tok):
+            out.add(tok if _keyword.iskeyword(tok) else "NAME")
         else:
             out.add(tok[:10])
     return out
+
+
+def deviation(src, exp, got, kind):
+    """What region `got` loses / gains at each end relative to the expected extent."""
+    d = {"lost_head": set(), "lost_tail": set(), "extra_head": set(), "extra_tail": set()}
+    if kind == "Num" and got[0] == exp[0] and got[1] < exp[1]:
+        lit = src[exp[0]:exp[1]]                    # the region is a proper prefix of the literal
+        cls = "underscore" if "_" in lit else "binary" if lit[:2] in ("0b", "0B") else "other"
+        d["lost_tail"] = {"literal-tail:" + cls}
+        return d
+    if kind == "JoinedStr" and got[0] == exp[0] and got[1] < exp[1]:
+        d["lost_tail"] = {"fstring-tail"}           # ... of the (concatenated) f-string
+        return d
+    if kind in ("Str", "Constant") and got[1] == exp[1] and got[0] > exp[0] and \
+            _re.match(r"[rRbBuUfF]{1,2}$", src[exp[0]:got[0]]):
+        d["lost_head"] = {"string-prefix"}
+        return d
+    if got[0] > exp[0]:
+        d["lost_head"] = atoms(src[exp[0]:got[0]], kind)
+    elif got[0] < exp[0]:
+        d["extra_head"] = atoms(src[got[0]:exp[0]], kind)
+    if got[1] < exp[1]:
+        d["lost_tail"] = atoms(src[got[1]:exp[1]], kind)
+    elif got[1] > exp[1]:
+        d["extra_tail"] = atoms(src[exp[1]:got[1]], kind)
+    return d
+
+
+def own_deviation(dev, got, exp, children):
+    """dev minus what the node merely inherits from deviating children: a node
+    that starts (ends) where a deviating child starts (ends), or inside that
+    child's true extent, has no say of its own about that end.
+    children: (dev, got, exp) of the direct children that deviate themselves."""
+    own = {k: set(v) for k, v in dev.items()}
+    for cdev, cgot, cexp in children:
+        if (cgot[0] == got[0] and (cdev["lost_head"] or cdev["extra_head"])) or cexp[0] < got[0]:
+            own["lost_head"] = set()
+            own["extra_head"] = set()
+        if (cgot[1] == got[1] and (cdev["lost_tail"] or cdev["extra_tail"])) or cexp[1] > got[1]:
+            own["lost_tail"] = set()
+            own["extra_tail"] = set()
+    return own["lost_head"] | own["lost_tail"], own["extra_head"] | own["extra_tail"]
 
 
 def run_generated(beh):
@@ -183,7 +257,7 @@ def run_generated(beh):
     root, exc, caught = annotate(src)
     if exc is not None:
         fails.append({"clause": "Annotate", "exc": type(exc).__name__, "msg": str(exc)[:100]})
-        return {"fails": fails, "desc": desc, "nodes": 0}
+        return {"fails": fails, "desc": desc, "nodes": 0, "unannotated": [], "hole_unannotated": None}
     for w in caught:
         fails.append({"clause": "Warns", "msg": str(w.message)[:100]})
     try:
@@ -219,28 +293,14 @@ def run_generated(beh):
             fails.append({"clause": "Region", "kind": node["k"], "lost": "not-a-region", "got": repr(reg),
                           "expected": src[exp[0]:exp[1]]})
             continue
-        lost = set()
-        extra = set()
-        if reg[0] > exp[0]:
-            lost |= atoms(src[exp[0]:reg[0]], node["k"])
-        elif reg[0] < exp[0]:
-            extra |= atoms(src[reg[0]:exp[0]], node["k"])
-        if reg[1] < exp[1]:
-            lost |= atoms(src[reg[1]:exp[1]], node["k"])
-        elif reg[1] > exp[1]:
-            extra |= atoms(src[exp[1]:reg[1]], node["k"])
-        devs[path] = (lost, extra)
-        # what a node merely inherits from a child whose own extent reaches into the lost text is the child's
-        own_lost, own_extra = set(lost), set(extra)
-        for p, (cl, ce) in devs.items():
-            if len(p) > len(path) and p[:len(path)] == path:
-                cexp = expected[p]
-                if cexp[0] < reg[0] or cexp[1] > reg[1]:
-                    own_lost -= {x for x in cl if x != "()"}
-                    own_extra -= {x for x in ce if x != "()"}
-                    if "literal-tail" in cl:
-                        own_lost -= {x for x in own_lost if _re.match(r"\w+$", x)}
-        for what, items in (("lost", own_lost), ("extra", own_extra)):
+        dev = deviation(src, exp, reg, node["k"])
+        devs[path] = (dev, reg, exp)
+        kids = [devs[p] for p in devs if len(p) == len(path) + 1 and p[:len(path)] == path]
+        # virtual nodes (decorator, returns) stand between a node and its real children
+        kids += [devs[p] for p in devs if len(p) == len(path) + 2 and p[:len(path)] == path
+                 and p[:len(path) + 1] not in got_by_path]
+        lost, extra = own_deviation(dev, reg, exp, kids)
+        for what, items in (("lost", lost), ("extra", extra)):
             for atom in sorted(items):
                 fails.append({"clause": "Region", "kind": node["k"], what: atom, "expected": src[exp[0]:exp[1]],
                               "got": src[reg[0]:reg[1]], "path": list(path)})
@@ -255,18 +315,349 @@ def run_generated(beh):
                 continue
             if not (preg[0] <= creg[0] <= creg[1] <= preg[1]):
                 fails.append({"clause": "Nesting", "kind": type(child).__name__, "parent": type(parent).__name__})
-    return {"fails": fails, "desc": desc, "nodes": nodes, "unannotated": unannotated}
+    hole = pt.at(rg, beh["hole"])["n"]
+    return {"fails": fails, "desc": desc, "nodes": nodes, "unannotated": unannotated,
+            "hole_unannotated": getattr(hole, "region", None) is None}
 
 
-def gen_key(f, desc):
-    k = {"part": "generated", "clause": f["clause"]}
-    if f["clause"] in ("Annotate", "WriteBack", "Warns") or f.get("lost") == "not-a-region":
-        k["expr"] = desc["expr"]
-        k["ctx"] = desc["ctx"]
+def gen_key(f, desc, unvisited_ctx=()):
+    """unvisited_ctx: contexts whose hole rope was seen (in this run) to leave without a region"""
+    k = {"part": "generated", "clause": f["clause"], "unvisited_hole": desc["ctx"] in unvisited_ctx}
+    k["expr"] = desc["expr"]
+    k["ctx"] = desc["ctx"]
     for name in ("kind", "lost", "extra", "exc", "parent", "dev"):
         if name in f:
             k[name] = f[name]
     return k
+
+
+# ------------------------------------------------------------------ corpus part
+def corpus_files():
+    """(label, path) of every .py file of the repository under test and of the standard library."""
+    roots = [("rope", os.path.join(common.REPO, "rope")), ("ropetest", os.path.join(common.REPO, "ropetest")),
+             ("stdlib", sysconfig.get_paths()["stdlib"])]
+    out = []
+    for label, root in roots:
+        for dirpath, dirnames, filenames in os.walk(root):
+            dirnames[:] = sorted(d for d in dirnames if d not in ("site-packages", "__pycache__"))
+            for f in sorted(filenames):
+                if f.endswith(".py"):
+                    p = os.path.join(dirpath, f)
+                    out.append((label + "/" + os.path.relpath(p, root), p))
+    return out
+
+
+def read_source(path):
+    """Text of a module the way the interpreter decodes it, or None if it is not a valid module."""
+    try:
+        with tokenize.open(path) as f:
+            text = f.read()
+        if "\x00" in text:
+            return None
+        with warnings.catch_warnings():
+            warnings.simplefilter("ignore")
+            ast.parse(text)
+        return text
+    except (SyntaxError, UnicodeDecodeError, ValueError, LookupError, RecursionError):
+        return None
+
+
+def strip_parens(src, s, e):
+    """(s, e) with balanced surrounding parentheses (and the layout inside them) removed."""
+    for _ in range(20):
+        seg = src[s:e]
+        if "(" not in seg:
+            return s, e
+        try:
+            toks = [t for t in tokenize.generate_tokens(io.StringIO("(" + seg + ")").readline)
+                    if t.type not in (tokenize.NL, tokenize.NEWLINE, tokenize.COMMENT, tokenize.ENDMARKER,
+                                      tokenize.INDENT, tokenize.DEDENT)]
+        except (tokenize.TokenError, IndentationError, SyntaxError):
+            return s, e
+        toks = toks[1:-1]
+        if len(toks) < 3 or toks[0].string != "(" or toks[-1].string != ")":
+            return s, e
+        depth = 0
+        for k, t in enumerate(toks):
+            if t.type == tokenize.OP and t.string in "([{":
+                depth += 1
+            elif t.type == tokenize.OP and t.string in ")]}":
+                depth -= 1
+            if depth == 0 and k < len(toks) - 1:
+                return s, e
+        lines = ("(" + seg).split("\n")
+        starts = [0]
+        for ln in lines:
+            starts.append(starts[-1] + len(ln) + 1)
+
+        def off(pos):
+            return s + starts[pos[0] - 1] + pos[1] - 1
+        s, e = off(toks[1].start), off(toks[-2].end)
+    return s, e
+
+
+def record_tree(src, root):
+    """The annotated tree as RegionTree.tla reads it (see the module comment there)."""
+    offs = pt.Offsets(src)
+    nodes = []
+
+    def visit(node, parent, prev, ts):
+        reg = node.region
+        idx = len(nodes) + 1
+        cps = offs.span(node) if not isinstance(node, ast.Module) else None
+        s, e = reg
+        if s is None or e is None:
+            s = -2 if s is None else s
+            e = -2 if e is None else e
+        cs, ce = cps if cps else (-1, -1)
+        s0, e0, cs0, ce0 = s, e, cs, ce
+        ds = -1
+        g = 0
+        if cps and (s, e) != (cs, ce) and s >= 0 and e >= 0:
+            s0, e0 = strip_parens(src, s, e)
+            cs0, ce0 = strip_parens(src, cs, ce)
+        if cps and isinstance(node, (ast.FunctionDef, ast.AsyncFunctionDef, ast.ClassDef)) and node.decorator_list:
+            d0 = offs.span(node.decorator_list[0])
+            ds = src.rfind("@", 0, d0[0]) if d0 else -1
+        if isinstance(node, ast.GeneratorExp) and isinstance(parent, ast.Call) and \
+                len(parent.args) == 1 and not parent.keywords:
+            g = 1
+        q = 0
+        if cps and isinstance(node, ast.stmt) and s >= 0 and e >= 0 and e < ce and src[e:ce].strip() == ";":
+            q = 1       # the interpreter lets a compound statement end after the `;` that closes its last line
+        rec = [type(node).__name__, s, e, 0, prev, ts, -1, cs, ce, s0, e0, cs0, ce0, ds, g, q]
+        nodes.append(rec)
+        off = s if s >= 0 else 0
+        last = 0
+        for child in getattr(node, "sorted_children", ()):
+            if isinstance(child, ast.AST):
+                if getattr(child, "region", None) is None:
+                    continue
+                cidx = visit(child, node, last, off)
+                nodes[cidx - 1][3] = idx
+                last = cidx
+                cr = child.region
+                off += (cr[1] - cr[0]) if None not in cr else 0
+            else:
+                off += len(child)
+        rec[6] = off if hasattr(node, "sorted_children") else -1
+        return idx
+
+    visit(root, None, 0, -1)
+    return nodes
+
+
+def record_file(item):
+    """Annotate one file; returns a summary and (when annotation worked) the trace line."""
+    common.use_repo()
+    from rope.refactor import patchedast
+    label, path, outdir = item
+    src = read_source(path)
+    if src is None:
+        return {"label": label, "skipped": True}
+    root, exc, caught = annotate(src)
+    res = {"label": label, "path": path, "skipped": False, "fails": [], "nodes": 0, "size": len(src)}
+    if exc is not None:
+        res["fails"].append({"clause": "Annotate", "exc": type(exc).__name__, "msg": str(exc)[:120]})
+        return res
+    for w in caught:
+        res["fails"].append({"clause": "Warns", "msg": str(w.message)[:80]})
+    try:
+        if patchedast.write_ast(root) != src:
+            res["fails"].append({"clause": "WriteBack", "dev": "differs"})
+    except Exception as e:  # noqa
+        res["fails"].append({"clause": "WriteBack", "exc": type(e).__name__})
+    sys.setrecursionlimit(10000)
+    nodes = record_tree(src, root)
+    res["nodes"] = len(nodes)
+    res["unannotated"] = sum(1 for n in ast.walk(root)
+                             if getattr(n, "lineno", None) is not None and not hasattr(n, "region"))
+    res["trace"] = json.dumps({"f": label, "len": len(src), "nodes": nodes}, separators=(",", ":"))
+    return res
+
+
+def classify_corpus(src, nodes, bad):
+    """Keys for the nodes TLC rejected: clause + node class + what the region loses / gains
+    relative to the interpreter's extent (root causes only, see own_deviation)."""
+    by_node = {}
+    for i, c in bad:
+        by_node.setdefault(i, set()).add(c)
+    devs = {}
+    out = []
+    under_fstring = {}
+
+    def in_fstring(i):
+        if i not in under_fstring:
+            p = nodes[i - 1][3]
+            under_fstring[i] = p != 0 and (nodes[p - 1][0] in ("JoinedStr", "FormattedValue") or in_fstring(p))
+        return under_fstring[i]
+
+    for i in sorted(by_node, reverse=True):          # children before parents
+        k, s, e, p, prev, ts, acc, cs, ce, s0, e0, cs0, ce0, ds, g, q = nodes[i - 1]
+        clauses = by_node[i]
+        fs = in_fstring(i)
+        for c in sorted(clauses - {"CpyExact", "CpyCore"}):
+            key = {"part": "corpus", "clause": c, "kind": k}
+            if fs:
+                key["under"] = "JoinedStr"
+            out.append((key, i))
+        if "CpyExact" not in clauses:
+            continue
+        if s < 0 or e < 0 or s > e:
+            out.append(({"part": "corpus", "clause": "Region", "kind": k, "lost": "not-a-region"}, i))
+            continue
+        xs = ds if ds >= 0 else cs
+        kk = "Num" if k == "Constant" and (src[cs:ce][:1].isdigit() or src[cs:ce][:1] == ".") else k
+        if fs:
+            out.append(({"part": "corpus", "clause": "Region", "kind": kk, "under": "JoinedStr"}, i))
+            continue
+        if e <= xs or s >= ce:
+            out.append(({"part": "corpus", "clause": "Region", "kind": kk, "lost": "elsewhere"}, i))
+            continue
+        dev = deviation(src, (xs, ce), (s, e), kk)
+        devs[i] = (dev, (s, e), (xs, ce))
+        kids = [devs[j] for j in devs if j > i and nodes[j - 1][3] == i]
+        lost, extra = own_deviation(dev, (s, e), (xs, ce), kids)
+        for what, items in (("lost", lost), ("extra", extra)):
+            for atom in sorted(items):
+                out.append(({"part": "corpus", "clause": "Region", "kind": kk, what: atom}, i))
+    return out
+
+
+# ---- file-level failures: shrink to the smallest statement that still fails, describe it
+def _stmt_text(lines, st):
+    import textwrap
+    first = min([st.lineno] + [d.lineno for d in getattr(st, "decorator_list", [])])
+    return textwrap.dedent("\n".join(lines[first - 1:st.end_lineno])) + "\n"
+
+
+def file_failure(src):
+    """(clause, exception) of annotating src, or None."""
+    from rope.refactor import patchedast
+    root, exc, caught = annotate(src)
+    if exc is not None:
+        return ("Annotate", type(exc).__name__)
+    if caught:
+        return ("Warns", "")
+    try:
+        if patchedast.write_ast(root) != src:
+            return ("WriteBack", "")
+    except Exception as e:  # noqa
+        return ("WriteBack", type(e).__name__)
+    return None
+
+
+def shrink_statement(src, sig, depth=0):
+    """Smallest statement of src (standing alone, dedented) that fails with signature sig."""
+    try:
+        mod = ast.parse(src)
+    except SyntaxError:
+        return src
+    lines = src.split("\n")
+    for st in mod.body:
+        seg = _stmt_text(lines, st)
+        try:
+            ast.parse(seg)
+        except SyntaxError:
+            continue            # return / continue / ... outside their context
+        if file_failure(seg) == sig:
+            inner = []
+            for f in ("body", "orelse", "finalbody"):
+                inner.extend(getattr(st, f, []) or [])
+            for h in getattr(st, "handlers", []) or []:
+                inner.extend(h.body)
+            for c in getattr(st, "cases", []) or []:
+                inner.extend(c.body)
+            if inner and depth < 12:
+                seg_lines = seg.split("\n")
+                # statements of the inner blocks, each alone
+                sub = ast.parse(seg).body[0]
+                inner2 = []
+                for f in ("body", "orelse", "finalbody"):
+                    inner2.extend(getattr(sub, f, []) or [])
+                for h in getattr(sub, "handlers", []) or []:
+                    inner2.extend(h.body)
+                for c in getattr(sub, "cases", []) or []:
+                    inner2.extend(c.body)
+                for st2 in inner2:
+                    seg2 = _stmt_text(seg_lines, st2)
+                    try:
+                        ast.parse(seg2)
+                    except SyntaxError:
+                        continue
+                    if file_failure(seg2) == sig:
+                        return shrink_statement(seg2, sig, depth + 1)
+            return seg
+    return src
+
+
+def features(stmt_src):
+    """Constructs present in a (shrunk) failing statement that the annotation is known to treat loosely."""
+    try:
+        tree = ast.parse(stmt_src)
+    except SyntaxError:
+        return "?"
+    f = set()
+    for n in ast.walk(tree):
+        if isinstance(n, ast.arguments):
+            if n.kwonlyargs:
+                f.add("kwonly-params")
+            if n.posonlyargs:
+                f.add("posonly-params")
+        if isinstance(n, ast.arg) and n.annotation is not None:
+            f.add("param-annotation")
+        if isinstance(n, (ast.FunctionDef, ast.AsyncFunctionDef)) and n.returns is not None:
+            f.add("return-annotation")
+        if isinstance(n, (ast.FunctionDef, ast.AsyncFunctionDef, ast.ClassDef)) and getattr(n, "type_params", None):
+            f.add("type-params")
+        if isinstance(n, ast.ClassDef) and n.keywords:
+            f.add("class-keywords")
+        if isinstance(n, ast.Try) and n.orelse and n.finalbody:
+            f.add("try-else-finally")
+        if isinstance(n, ast.JoinedStr):
+            f.add("fstring")
+        if isinstance(n, ast.Constant) and isinstance(n.value, (str, bytes)):
+            v = n.value if isinstance(n.value, str) else n.value.decode("latin-1")
+            if "#" in v:
+                f.add("hash-in-string")
+            if any(c in v for c in "()[]{}"):
+                f.add("bracket-in-string")
+        if isinstance(n, ast.Name) and not n.id.isascii():
+            f.add("non-ascii-name")
+        if isinstance(n, ast.Match):
+            f.add("match")
+        if isinstance(n, ast.Tuple) and not n.elts:
+            f.add("empty-tuple")
+        if type(n).__name__ in ("TypeAlias", "TryStar"):
+            f.add(type(n).__name__)
+    if "\t" in stmt_src:
+        f.add("tab")
+    if "\x0c" in stmt_src:
+        f.add("form-feed")
+    return "+".join(sorted(f)) or "plain"
+
+
+def file_failure_key(src):
+    sig = file_failure(src)
+    if sig is None:
+        return None, None
+    small = shrink_statement(src, sig)
+    try:
+        kind = type(ast.parse(small).body[0]).__name__ if len(ast.parse(small).body) == 1 else "Module"
+    except SyntaxError:
+        kind = "?"
+    key = {"part": "corpus", "clause": sig[0], "exc": sig[1], "stmt": kind, "features": features(small)}
+    return key, small
+
+
+def run_region_tlc(batch_path):
+    cfg = batch_path + ".cfg"
+    tlc.write_cfg(cfg, invariants=["TypeOK", "TraceShape", "Report"])
+    verdicts = []
+    res = tlc.run("RegionTree", cfg, workers=2, on_tagged=lambda t, v: verdicts.append(v), collect_tags=False,
+                  env={"TRACE_FILE": batch_path}, java_opts=("-Xmx5g",))
+    os.unlink(cfg)
+    return res, verdicts
 
 
 # ------------------------------------------------------------------ main
@@ -276,16 +667,136 @@ def run_gen_tlc(job):
     cfg = os.path.join(common.SCRATCH_BASE, "c08_gen%d_%d.cfg" % (k, os.getpid()))
     tlc.write_cfg(cfg, constants=gen_constants(True), invariants=GEN_INVARIANTS + ["Export"])
     res = tlc.run("MC_PyLayout", cfg, on_tagged=lambda t, v: behs.append(v), collect_tags=False, workers=1,
-                  simulate={"num": nsim}, depth=3, seed=1000 * common.SEED + k + 1)
+                  simulate={"num": nsim}, depth=3, seed=1000 * common.SEED + k + 1, java_opts=("-Xmx3g",))
     os.unlink(cfg)
     return res, behs
+
+
+def corrupt_trace(line):
+    """Self-test of the binding: a copy of a recorded trace with one region pushed
+    out of its parent and one shifted; RegionTree must reject both nodes."""
+    tr = json.loads(line)
+    nodes = tr["nodes"]
+    victims = [i for i, n in enumerate(nodes) if n[3] != 0 and n[7] >= 0 and n[2] > n[1]]
+    if len(victims) < 2:
+        return None, None
+    a, b = victims[len(victims) // 3], victims[2 * len(victims) // 3]
+    nodes[a][2] = nodes[nodes[a][3] - 1][2] + 1        # end beyond the parent's end
+    nodes[b][1] += 1                                   # start one character late
+    tr["f"] = "selftest:" + tr["f"]
+    return json.dumps(tr, separators=(",", ":")), {a + 1: "Nesting", b + 1: "CpyExact"}
+
+
+def corpus_part(tier, verdict):
+    files = corpus_files()
+    rnd = common.rng("c08-corpus")
+    if tier == "quick":
+        small = [(l, p) for l, p in files if os.path.getsize(p) < 120000]
+        by = {}
+        for l, p in small:
+            by.setdefault(l.split("/")[0], []).append((l, p))
+        files = []
+        for label, n in (("rope", 12), ("ropetest", 8), ("stdlib", 30)):
+            pool = sorted(by.get(label, []))
+            rnd.shuffle(pool)
+            files.extend(pool[:n])
+    out = common.scratch("c08_")
+    stats = {"files": 0, "skipped_not_valid_python": 0, "nodes": 0, "accepted": 0, "rejected": 0,
+             "file_level_failures": 0, "unannotated_nodes": 0, "tlc_states": 0}
+    samples = []
+    try:
+        recorded = {}
+        nb = 4 if tier == "quick" else 16
+        paths = [os.path.join(out, "batch%d.ndjson" % k) for k in range(nb)]
+        handles = [open(p, "w") for p in paths]
+        sizes = [0] * nb
+        expect_reject = {}
+        for r in replay.pool_map(record_file, [(l, p, out) for l, p in files], chunk=8):
+            if "machinery" in r:
+                verdict.machinery_failure(r["machinery"][:500])
+                continue
+            if r.get("skipped"):
+                stats["skipped_not_valid_python"] += 1
+                continue
+            stats["files"] += 1
+            stats["nodes"] += r["nodes"]
+            stats["unannotated_nodes"] += r.get("unannotated", 0)
+            if r["fails"]:
+                stats["file_level_failures"] += 1
+                src = read_source(r["path"])
+                key, small_src = file_failure_key(src)
+                if key is None:
+                    key, small_src = {"part": "corpus", "clause": r["fails"][0]["clause"], "stmt": "unstable"}, ""
+                verdict.failure(key, {"property": PROP, "key": key, "file": r["label"], "shrunk": small_src,
+                                      "detail": r["fails"][:3]})
+            if "trace" in r and not r["fails"]:
+                k = sizes.index(min(sizes))
+                handles[k].write(r["trace"] + "\n")
+                sizes[k] += len(r["trace"])
+                recorded[r["label"]] = r["path"]
+                if len(expect_reject) < 2 and r["nodes"] > 50:
+                    bad_line, want = corrupt_trace(r["trace"])
+                    if bad_line:
+                        handles[k].write(bad_line + "\n")
+                        expect_reject["selftest:" + r["label"]] = want
+        for h in handles:
+            h.close()
+        from concurrent.futures import ThreadPoolExecutor
+        with ThreadPoolExecutor(max_workers=8) as ex:
+            results = list(ex.map(run_region_tlc, [p for p, n in zip(paths, sizes) if n]))
+        seen_selftests = 0
+        for (res, verdicts), path in zip(results, [p for p, n in zip(paths, sizes) if n]):
+            stats["tlc_states"] += res.distinct
+            if not res.ok:
+                verdict.machinery_failure("TLC RegionTree on %s: %s %s %s" % (os.path.basename(path), res.violated,
+                                                                              res.error, res.tail[-300:]))
+                continue
+            lines = None
+            for v in verdicts:
+                if v["f"].startswith("selftest:"):
+                    seen_selftests += 1
+                    got = {}
+                    for i, c in v["bad"]:
+                        got.setdefault(i, set()).add(c)
+                    for i, c in expect_reject.get(v["f"], {}).items():
+                        if c not in got.get(i, ()):
+                            verdict.machinery_failure("RegionTree accepted a corrupted trace (%s node %d %s)" % (
+                                v["f"], i, c))
+                    continue
+                if not v["bad"]:
+                    stats["accepted"] += 1
+                    continue
+                stats["rejected"] += 1
+                if lines is None:
+                    lines = {}
+                    with open(path) as fh:
+                        for line in fh:
+                            tr = json.loads(line)
+                            lines[tr["f"]] = tr
+                tr = lines[v["f"]]
+                src = read_source(recorded[v["f"]])
+                for key, i in classify_corpus(src, tr["nodes"], v["bad"]):
+                    nd = tr["nodes"][i - 1]
+                    verdict.failure(key, {"property": PROP, "key": key, "file": v["f"], "node": nd,
+                                          "region_text": src[max(nd[1], 0):max(nd[2], 0)][:200],
+                                          "cpython_text": src[max(nd[7], 0):max(nd[8], 0)][:200]})
+                if len(samples) < 2:
+                    samples.append({"file": v["f"], "nodes": v["n"], "rejected_nodes": len({i for i, c in v["bad"]})})
+        if seen_selftests != len(expect_reject) or not expect_reject:
+            verdict.machinery_failure("self-test traces missing from the TLC verdicts (%d of %d)" % (
+                seen_selftests, len(expect_reject)))
+    finally:
+        common.rmtree(out)
+    return stats, samples
 
 
 def main(tier):
     timer = common.Timer()
     verdict = common.Verdict(PROP)
     from concurrent.futures import ThreadPoolExecutor
-    njobs, nsim = (4, 1500) if tier == "quick" else (8, 30000)
+    njobs, nsim = (4, 1500) if tier == "quick" else (8, 20000)
+    if os.environ.get("C08_ONLY") == "corpus":
+        njobs, nsim = 1, 50
     with ThreadPoolExecutor(max_workers=8) as ex:
         results = list(ex.map(run_gen_tlc, [(k, nsim) for k in range(njobs)]))
     behs = []
@@ -308,26 +819,60 @@ def main(tier):
     gen_checked = 0
     gen_nodes = 0
     samples = []
+    unannotated = {}
+    unvisited_ctx = set()
+    pending = []
     for r in replay.pool_map(run_generated, behs, chunk=200):
         gen_checked += 1
         if "machinery" in r:
             verdict.machinery_failure(r["machinery"][:500])
             continue
         gen_nodes += r["nodes"]
+        for k in r["unannotated"]:
+            unannotated[k] = unannotated.get(k, 0) + 1
+        if r["hole_unannotated"]:
+            unvisited_ctx.add(r["desc"]["ctx"])
         if len(samples) < 3 and r["desc"]["gaps"] and gen_checked % 97 == 0:
             samples.append(r["desc"])
+        if r["fails"]:
+            pending.append(r)
+    for r in pending:
         for f in r["fails"]:
-            verdict.failure(gen_key(f, r["desc"]), {"property": PROP, "key": gen_key(f, r["desc"]),
-                                                    "case": r["desc"], "detail": f})
+            key = gen_key(f, r["desc"], unvisited_ctx)
+            verdict.failure(key, {"property": PROP, "key": key, "case": r["desc"], "detail": f})
+    if unannotated:
+        print("NOTE nodes rope leaves without a region (not charged):", dict(sorted(unannotated.items())),
+              "- contexts whose hole is never visited:", sorted(unvisited_ctx))
+    cstats, csamples = ({}, []) if os.environ.get("C08_ONLY") == "generated" else corpus_part(tier, verdict)
+    if cstats:
+        print("corpus:", cstats)
+    if verdict.machinery and not verdict.violations:
+        pass
     code = verdict.finish()
+    if verdict.violations and verdict.machinery:
+        for m in verdict.machinery[:5]:
+            print("MACHINERY-FAILURE (besides the violations) property=%s %s" % (PROP, m))
     common.write_evidence(PROP, tier, "exploration", {
-        "evaluations": gen_checked,
-        "distinct_nontrivial": gen_checked,
-        "rule": "generated: one decorated tree per evaluation",
-        "samples": samples,
+        "evaluations": gen_checked + cstats.get("files", 0),
+        "distinct_nontrivial": gen_checked + cstats.get("files", 0),
+        "rule": "generated part: one evaluation per decorated tree drawn at random by TLC from spec/PyLayout.tla "
+                "(context x plugged expression x parentheses x trailing comma x spacing style x <= 2 decorated "
+                "gaps), all distinct; corpus part: one evaluation per source file, its annotated tree validated "
+                "node by node by TLC against spec/RegionTree.tla",
+        "samples": samples + csamples,
+        "generated_trees": gen_checked,
         "generated_nodes_compared": gen_nodes,
+        "tlc_states_PyLayout": gen_states,
+        "traces_validated_against_impl": cstats.get("accepted", 0) + cstats.get("rejected", 0),
+        "corpus": cstats,
+        "nodes_left_unannotated_by_rope_generated": unannotated,
         "known_finding_hits": verdict.known_hits,
-    }, timer.s(), violations=len(verdict.violations), assumptions=[])
+    }, timer.s(), violations=len(verdict.violations), assumptions=[
+        "the generated part is a generator with a constructive oracle (token indexes), refereed by CPython's "
+        "own positions on every rendered text; it is exploration, not model checking",
+        "the corpus part says nothing about constructs the corpus does not contain",
+        "nodes that rope leaves without a region are reported as a note, not charged",
+    ])
     return code
 
 
